@@ -591,9 +591,14 @@ func c09HtmlXnetSafe(doc []byte) bool {
 		return false
 	}
 	// x/net/html leaves the script-data-escaped state on `<` + anything but `/` or a letter (the standard stays in it):
-	// skip documents with `<!` after `<!--`
-	if i := bytes.Index(doc, []byte("<!--")); i >= 0 && bytes.Contains(doc[i+4:], []byte("<!")) && bytes.Contains(bytes.ToLower(doc), []byte("<script")) {
-		return false
+	// skip documents with such a `<` after a `<!--` when there is a script
+	if i := bytes.Index(doc, []byte("<!--")); i >= 0 && bytes.Contains(bytes.ToLower(doc), []byte("<script")) {
+		rest := doc[i+4:]
+		for k := 0; k+1 < len(rest); k++ {
+			if c := rest[k+1]; rest[k] == '<' && c != '/' && !(c >= 'a' && c <= 'z' || c >= 'A' && c <= 'Z') {
+				return false
+			}
+		}
 	}
 	return c03OracleSafe(doc)
 }
